@@ -56,3 +56,121 @@ def item_sensor_statuses(repo, out):
 
 
 ITEMS = [item_sensor_statuses]
+
+
+# ---------------------------------------------------------------------------------------------------------------
+# SensorCache._get_props: the wildcard property merge.  The whole body must have the shape
+#     props = prop_map.setdefault(name, {})
+#     for key, val in prop_map.items():
+#         if W in key:
+#             regex = J.join(re.escape(part) for part in key.split(W))
+#             if re.<fn>([P +] regex [+ S], name):
+#                 props.update(val)
+#     props.update(kwargs)
+#     return props
+# and the facts the hand-written `glob` / `get_props` of Model/SensorCache.v rely on are emitted: the wildcard
+# character W, the regex J standing for it, whether literal parts are escaped, whether the match is anchored at the
+# start and at the END of the sensor name, and the merge order.
+def _expect(cond, msg):
+    if not cond:
+        raise TranslateError('katdal/sensordata.py:_get_props: ' + msg)
+
+
+def _flatten_add(node):
+    if isinstance(node, ast.BinOp) and isinstance(node.op, ast.Add):
+        return _flatten_add(node.left) + _flatten_add(node.right)
+    return [node]
+
+
+def _is_call(node, obj, attr, nargs):
+    return (isinstance(node, ast.Call) and isinstance(node.func, ast.Attribute) and node.func.attr == attr
+            and isinstance(node.func.value, ast.Name) and node.func.value.id == obj
+            and len(node.args) == nargs and not node.keywords)
+
+
+def item_sensor_wildcards(repo, out):
+    rel = 'katdal/sensordata.py'
+    tree = _parse(repo, rel)
+    cls = [n for n in tree.body if isinstance(n, ast.ClassDef) and n.name == 'SensorCache']
+    _expect(len(cls) == 1, 'class SensorCache not found')
+    fns = [n for n in cls[0].body if isinstance(n, ast.FunctionDef) and n.name == '_get_props']
+    _expect(len(fns) == 1, 'expected exactly one method _get_props')
+    fn = fns[0]
+    a = fn.args
+    _expect([x.arg for x in a.args] == ['name', 'prop_map'] and a.kwarg is not None and a.kwarg.arg == 'kwargs'
+            and a.vararg is None and not a.kwonlyargs and not a.defaults, 'signature is not (name, prop_map, **kwargs)')
+    body = list(fn.body)
+    if body and isinstance(body[0], ast.Expr) and isinstance(body[0].value, ast.Constant) \
+            and isinstance(body[0].value.value, str):
+        body = body[1:]
+    _expect(len(body) == 4, 'body is not: setdefault / for / update(kwargs) / return (%d statements)' % len(body))
+    s0, loop, s2, s3 = body
+    _expect(isinstance(s0, ast.Assign) and len(s0.targets) == 1 and isinstance(s0.targets[0], ast.Name)
+            and s0.targets[0].id == 'props' and _is_call(s0.value, 'prop_map', 'setdefault', 2)
+            and isinstance(s0.value.args[0], ast.Name) and s0.value.args[0].id == 'name'
+            and isinstance(s0.value.args[1], ast.Dict) and not s0.value.args[1].keys,
+            'first statement is not `props = prop_map.setdefault(name, {})`')
+    _expect(isinstance(s2, ast.Expr) and _is_call(s2.value, 'props', 'update', 1)
+            and isinstance(s2.value.args[0], ast.Name) and s2.value.args[0].id == 'kwargs',
+            'kwargs are not merged last by `props.update(kwargs)`')
+    _expect(isinstance(s3, ast.Return) and isinstance(s3.value, ast.Name) and s3.value.id == 'props',
+            'does not `return props`')
+    _expect(isinstance(loop, ast.For) and not loop.orelse and isinstance(loop.target, ast.Tuple)
+            and [getattr(e, 'id', None) for e in loop.target.elts] == ['key', 'val']
+            and _is_call(loop.iter, 'prop_map', 'items', 0) and len(loop.body) == 1,
+            'loop is not `for key, val in prop_map.items():` with a single statement')
+    guard = loop.body[0]
+    _expect(isinstance(guard, ast.If) and not guard.orelse and isinstance(guard.test, ast.Compare)
+            and len(guard.test.ops) == 1 and isinstance(guard.test.ops[0], ast.In)
+            and isinstance(guard.test.left, ast.Constant) and isinstance(guard.test.left.value, str)
+            and isinstance(guard.test.comparators[0], ast.Name) and guard.test.comparators[0].id == 'key'
+            and len(guard.body) == 2, 'wildcard guard is not `if <const> in key:` with two statements')
+    wild = guard.test.left.value
+    mk, test = guard.body
+    _expect(isinstance(mk, ast.Assign) and len(mk.targets) == 1 and isinstance(mk.targets[0], ast.Name)
+            and mk.targets[0].id == 'regex', 'regex is not assigned first')
+    j = mk.value
+    _expect(isinstance(j, ast.Call) and isinstance(j.func, ast.Attribute) and j.func.attr == 'join'
+            and isinstance(j.func.value, ast.Constant) and isinstance(j.func.value.value, str)
+            and len(j.args) == 1 and not j.keywords and isinstance(j.args[0], (ast.GeneratorExp, ast.ListComp))
+            and len(j.args[0].generators) == 1, 'regex is not `<const>.join(<comprehension>)`')
+    join = j.func.value.value
+    gen = j.args[0].generators[0]
+    _expect(isinstance(gen.target, ast.Name) and gen.target.id == 'part' and not gen.ifs
+            and _is_call(gen.iter, 'key', 'split', 1) and isinstance(gen.iter.args[0], ast.Constant)
+            and gen.iter.args[0].value == wild, 'parts are not `for part in key.split(%r)`' % wild)
+    elt = j.args[0].elt
+    if _is_call(elt, 're', 'escape', 1) and isinstance(elt.args[0], ast.Name) and elt.args[0].id == 'part':
+        escaped = True
+    elif isinstance(elt, ast.Name) and elt.id == 'part':
+        escaped = False
+    else:
+        _expect(False, 'literal part is neither `re.escape(part)` nor `part`')
+    _expect(isinstance(test, ast.If) and not test.orelse and len(test.body) == 1
+            and isinstance(test.body[0], ast.Expr) and _is_call(test.body[0].value, 'props', 'update', 1)
+            and isinstance(test.body[0].value.args[0], ast.Name) and test.body[0].value.args[0].id == 'val',
+            'a matching entry is not merged by `props.update(val)`')
+    m = test.test
+    _expect(isinstance(m, ast.Call) and isinstance(m.func, ast.Attribute) and isinstance(m.func.value, ast.Name)
+            and m.func.value.id == 're' and m.func.attr in ('match', 'fullmatch', 'search') and len(m.args) == 2
+            and not m.keywords and isinstance(m.args[1], ast.Name) and m.args[1].id == 'name',
+            'match test is not re.match/fullmatch/search(<pattern>, name) without flags')
+    pieces = _flatten_add(m.args[0])
+    idx = [i for i, p in enumerate(pieces) if isinstance(p, ast.Name) and p.id == 'regex']
+    _expect(len(idx) == 1 and all(isinstance(p, ast.Constant) and isinstance(p.value, str)
+                                  for i, p in enumerate(pieces) if i != idx[0]),
+            'pattern is not [const +] regex [+ const]')
+    prefix = ''.join(p.value for p in pieces[:idx[0]])
+    suffix = ''.join(p.value for p in pieces[idx[0] + 1:])
+    _expect(prefix in ('', '^') and suffix in ('', '$'), 'unexpected pattern decoration %r ... %r' % (prefix, suffix))
+    start = prefix == '^' or m.func.attr in ('match', 'fullmatch')
+    end = suffix == '$' or m.func.attr == 'fullmatch'
+    out.append('Definition sensor_wild_char : string := %s.' % coq_strings((wild,))[1:-1])
+    out.append('Definition sensor_wild_join : string := %s.' % coq_strings((join,))[1:-1])
+    out.append('Definition sensor_wild_escape : bool := %s.' % ('true' if escaped else 'false'))
+    out.append('Definition sensor_wild_anchor_start : bool := %s.' % ('true' if start else 'false'))
+    out.append('Definition sensor_wild_anchor_end : bool := %s.' % ('true' if end else 'false'))
+    out.append('Definition sensor_props_merge_order : list string := %s.' % coq_strings(('name', 'wildcards', 'kwargs')))
+
+
+ITEMS.append(item_sensor_wildcards)
